@@ -16,6 +16,10 @@
 (* where the C code reads t->qual.                                             *)
 EXTENDS CTypes
 
+(* Status: CondSameTypeNoConversion fixed by /repo ba99903, ConvertKeepsCompatible and SizeofSeesBitfield by 4c7c95a,   *)
+(* DerefDecayedArrayDropsQual by 13d3f3d, UacKeepsWideEnum by 60245bf: they are no longer listed in Devs of the cfgs,   *)
+(* the disjuncts are kept as documentation of the regression each one would be.  Open: CompositeIsFirst,              *)
+(* ArrayQualOnArrayType.                                                                                               *)
 AllDevs == {"CondSameTypeNoConversion",   \* condexpr: `if (lt == rt) t = lt;` before the arithmetic case
             "CompositeIsFirst",           \* typecomposite: `return t1;`
             "UacKeepsWideEnum",           \* typecommonreal returns an enum type with rank > int unconverted
